@@ -176,13 +176,13 @@ def run(ck, facts):
     # file names come from the same formatter functions
     for path, fmts in (("diplomat_tool::c::run", ("fmt_decl_header_path", "fmt_impl_header_path")), ("diplomat_tool::cpp::run", ("fmt_decl_header_path", "fmt_impl_header_path"))):
         f = tool.fn(path)
-        calls = {x.get("m") for x in C.calls_in(C.fn_body(f)) if x.get("k") == "mcall"}
+        calls = {x.get("m") for g_ in C.fns_inl(tool, f, depth=1) for x in C.calls_in(C.fn_body(g_)) if x.get("k") == "mcall"}     # run and the phase functions it is split into
         ck.expect(set(fmts) <= calls and "add_file" in calls, "R3", path.split("::")[-2] + "::run/file-names", str(fmts), "generated file names are no longer produced by %s (includes could name files that are not generated)" % (fmts,), C.loc(f))
     pd = tool.fn("path_diff")
     body = C.fn_body(pd)
     comp_eq = False
     for n in C.walk(body):
-        if n.get("k") == "bin" and n.get("op") == "Eq":
+        if n.get("k") == "bin" and n.get("op") in ("Eq", "Ne"):
             sides = [C.strip(n["l"]), C.strip(n["r"])]
             if all(s.get("k") == "field" and s.get("n") == "0" for s in sides):
                 comp_eq = True
@@ -447,7 +447,7 @@ def run(ck, facts):
                 nodes, todo, seen_ = [], [n["init"]], set()
                 while todo:
                     e_ = todo.pop()
-                    for x in C.walk(e_):
+                    for x in C.walk_inl(tool, e_, 2, exclude=[f["path"]]):     # the computation may sit in a helper (`self.header_guard()`)
                         nodes.append(x)
                         if x.get("k") == "local" and x.get("id") not in seen_:
                             seen_.add(x.get("id"))
